@@ -58,6 +58,7 @@ Fixpoint produced_ok (Lin earlier : gset string) (sgs : list Circuit) : bool :=
    when c already respects the bound, and it COMPUTES c: same output values on every input valuation ("sub-circuits of the
    fan-in-limited circuit" is only meaningful if that circuit is equivalent to c) *)
 Definition limited_ok (C : Circuit) (L : option Circuit) : bool :=
+  wf_limb (c_g (lim C L)) &&      (* hypotheses of C17_model_correct / C17_agreement_transfers, decided on the recorded circuit *)
   match L with
   | None => (max_fanin (c_g C) <=? 2)%nat
   | Some L' => (max_fanin (c_g L') <=? 2)%nat && bool_decide (inputs (c_g L') = inputs (c_g C))
